@@ -142,7 +142,11 @@ def body_fuse(S, spec):
         z = y
         for gi in reversed(range(len(groups))):
             if len(groups[gi]) > 1:
-                z = z.unfuse(position + gi)
+                # (alternately by positive and by negative axis number)
+                z = z.unfuse(position + gi) if gi % 2 == 0 else z.unfuse(position + gi - z.ndim)
+        if len(groups) == 1 and len(groups[0]) > 1:
+            zn = y.unfuse(position - y.ndim)
+            check_unfused(S, f"unfuse-negative-axis[{mode}]", x, zn, perm, fermionic)
         check_unfused(S, f"unfuse[{mode}]", x, z, perm, fermionic)
         if not spec["a"].get("prefuse"):
             z2 = y.unfuse_all()
